@@ -4,11 +4,16 @@
 //!   sim selftest <what>            determinism / snapshot self-tests
 //! internal: sim worker …, sim replay-exec <file>
 
+mod acceptor;
 mod core;
+mod faults;
 mod guard;
 mod kinds;
+mod layout;
 mod model;
+mod producer;
 mod props;
+mod real;
 mod rng;
 mod runner;
 mod snapshot;
@@ -19,6 +24,8 @@ use std::path::Path;
 macro_rules! dispatch {
     ($id:expr, $f:ident, $($arg:expr),*) => {
         match $id {
+            "C03" => runner::$f::<props::c03::C03>($($arg),*),
+            "C04" => runner::$f::<props::c04::C04>($($arg),*),
             "C11" => runner::$f::<props::c11::C11>($($arg),*),
             "C19" => runner::$f::<props::c19::C19>($($arg),*),
             other => {
